@@ -67,9 +67,9 @@ Definition base (y : layout) (kind : nat) (gf : string -> bool) (k : akind) (x :
 Fixpoint assoc {A} (d : A) (t : list (string * A)) (n : string) : A :=
   match t with [] => d | (m, c) :: r => if String.eqb n m then c else assoc d r n end.
 (* [ov]: other processes that vanish, with the access index *)
-Definition mk_world (y : layout) (kind : nat) (v : option nat) (denied : list nat) (ov : list (string * nat))
+Definition mk_world (y : layout) (kind : nat) (v : option nat) (half : bool) (denied : list nat) (ov : list (string * nat))
                     (longname guess : bool) : world :=
-  {| w_base := base y kind; w_self := y_self y; w_vanish := v;
+  {| w_base := base y kind; w_self := y_self y; w_vanish := v; w_half := half;
      w_deny := fun i => existsb (Nat.eqb i) denied;
      w_ovanish := fun p => assoc None (map (fun e => (fst e, Some (snd e))) ov) p;
      w_param := fun n => match n with 0%nat => guess | 1%nat => longname | _ => false end;
@@ -124,8 +124,8 @@ Definition jv_result (r : result) : jv :=
 
 (* one call of script [p] on a fresh Process object in the given world:
    [outcome; access log; gone at the end?; outcome allowed by the property?] *)
-Definition run_case (y : layout) (p : prog) (kind : nat) (v : option nat) (denied : list nat)
+Definition run_case (y : layout) (p : prog) (kind : nat) (v : option nat) (half : bool) (denied : list nat)
                     (ov : list (string * nat)) (longname guess : bool) : jv :=
-  let w := mk_world y kind v denied ov longname guess in
+  let w := mk_world y kind v half denied ov longname guess in
   let '(r, s) := run w p st0 in
   JL [ jv_result r; JL (map (jv_access y) (rev (s_log s))); jbool (gone w s); jbool (allowedb r (gone w s)) ].
